@@ -206,6 +206,27 @@ pub fn check(c: &PathCase, obs: &mut Obs) -> Result<(), String> {
                     )));
                 }
             }
+            if determined {
+                // first / array / mixed forms of the same items (through the convenience functions)
+                let (mut d1, mut o1) = (Vec::new(), Vec::new());
+                nopanic("get_by_path_first", || jsonb::get_by_path_first(&root, p(), &mut d1, &mut o1))?.map_err(|e| ctx(&format!("get_by_path_first failed with {e:?}")))?;
+                let want_first: Vec<u8> = all.first().cloned().unwrap_or_default();
+                if d1 != want_first {
+                    return Err(ctx(&format!("get_by_path_first wrote {}, the first item the path denotes is {}", hex(&d1), hex(&want_first))));
+                }
+                let arr = M::Arr(items.iter().map(|i| i.v.clone()).collect()).enc();
+                let (mut d2, mut o2) = (Vec::new(), Vec::new());
+                nopanic("get_by_path_array", || jsonb::get_by_path_array(&root, p(), &mut d2, &mut o2))?.map_err(|e| ctx(&format!("get_by_path_array failed with {e:?}")))?;
+                if d2 != arr {
+                    return Err(ctx(&format!("get_by_path_array wrote {}, the array of the items the path denotes is {}", hex(&d2), hex(&arr))));
+                }
+                let (mut d3, mut o3) = (Vec::new(), Vec::new());
+                nopanic("get_by_path", || jsonb::get_by_path(&root, p(), &mut d3, &mut o3))?.map_err(|e| ctx(&format!("get_by_path failed with {e:?}")))?;
+                let want_mixed = if all.len() >= 2 { arr.clone() } else { want_first.clone() };
+                if d3 != want_mixed {
+                    return Err(ctx(&format!("get_by_path wrote {}, expected {}", hex(&d3), hex(&want_mixed))));
+                }
+            }
             let ex = r_exists.map_err(|e| ctx(&format!("path_exists failed with {e:?}")))?;
             if ex != !got.is_empty() {
                 return Err(ctx(&format!("path_exists = {ex} but All-mode selected {} item(s)", got.len())));
